@@ -473,3 +473,41 @@ Definition runner_n (ord : norder) (nf : bool) (v : variant) (o : outcome) : tbl
 
 Definition end_n (ord : norder) (nf : bool) (v : variant) (d : dir) (o : outcome) : st :=
   run_effs (map snd (runner_n ord nf v o (boot d))) (boot d).
+
+(* ================================================================ the run lock is a lock on an inode
+   fasteners opens <name>.lock (creating it when the path names nothing) and takes a lockf lock on the
+   open file, i.e. on the INODE.  Processes: numbers.  lk_file: the inode the path names now; lk_ino: the
+   inode each process has open; lk_held: who holds the lock of which inode.  LAcquire succeeds only when
+   nobody holds the lock of the process's inode (otherwise the process keeps waiting: no change).      *)
+Inductive lev := LOpen (p : nat) | LAcquire (p : nat) | LRelease (p : nat) | LUnlink.
+
+Record lst := { lk_file : option nat; lk_fresh : nat; lk_ino : list (nat * nat); lk_held : list (nat * nat) }.
+
+Definition lk0 : lst := {| lk_file := None; lk_fresh := 0; lk_ino := []; lk_held := [] |}.
+
+Fixpoint lk_lookup (p : nat) (l : list (nat * nat)) : option nat :=
+  match l with [] => None | (q, i) :: l' => if Nat.eqb p q then Some i else lk_lookup p l' end.
+
+Definition lk_step (s : lst) (e : lev) : lst :=
+  match e with
+  | LOpen p =>
+      match lk_file s with
+      | Some i => {| lk_file := Some i; lk_fresh := lk_fresh s; lk_ino := (p, i) :: lk_ino s; lk_held := lk_held s |}
+      | None => {| lk_file := Some (lk_fresh s); lk_fresh := S (lk_fresh s);
+                   lk_ino := (p, lk_fresh s) :: lk_ino s; lk_held := lk_held s |}
+      end
+  | LAcquire p =>
+      match lk_lookup p (lk_ino s) with
+      | Some i => if existsb (fun h => Nat.eqb (snd h) i) (lk_held s) then s
+                  else {| lk_file := lk_file s; lk_fresh := lk_fresh s; lk_ino := lk_ino s; lk_held := (p, i) :: lk_held s |}
+      | None => s
+      end
+  | LRelease p =>
+      {| lk_file := lk_file s; lk_fresh := lk_fresh s; lk_ino := lk_ino s;
+         lk_held := filter (fun h => negb (Nat.eqb (fst h) p)) (lk_held s) |}
+  | LUnlink => {| lk_file := None; lk_fresh := lk_fresh s; lk_ino := lk_ino s; lk_held := lk_held s |}
+  end.
+
+Definition lk_run (s : lst) (l : list lev) : lst := fold_left lk_step l s.
+Definition no_unlink (l : list lev) : bool := forallb (fun e => match e with LUnlink => false | _ => true end) l.
+
